@@ -166,6 +166,43 @@ FUNCS = {
 }
 
 
+def real_call(fn, args):
+    """the psec function behind a harness function name and the argument tuple in ITS signature"""
+    if fn == "generate_cbc_mac":
+        key, data, padding, length, is_aes = args
+        return mac.generate_cbc_mac, (key, data, padding, length, mac.Algorithm.AES if is_aes else mac.Algorithm.DES)
+    return FUNCS[fn], tuple(args)
+
+
+def call_styles(fn, args):
+    """other spellings of the same call that the documented signature makes equivalent: arguments by keyword (all / the
+    last one / all but the first), trailing arguments that equal their documented default left out or given as None.
+    -> [(label, thunk)]"""
+    import inspect
+    f, ra = real_call(fn, args)
+    names = list(inspect.signature(f).parameters)
+    n = len(ra)
+    out = []
+    if len(names) >= n:
+        out.append(("all arguments by keyword", lambda: f(**dict(zip(names, ra)))))
+        if n >= 2:
+            out.append(("last argument by keyword", lambda: f(*ra[:-1], **{names[n - 1]: ra[-1]})))
+            out.append(("all but the first by keyword", lambda: f(ra[0], **dict(zip(names[1:], ra[1:])))))
+    if fn == "generate_kcv" and ra[1] == 2:
+        out.append(("default length omitted", lambda: f(ra[0])))
+    if fn in ("pad_iso_1", "pad_iso_2", "pad_iso_3") and ra[1] == 8:
+        out.append(("default block size omitted", lambda: f(ra[0])))
+        out.append(("block size None", lambda: f(ra[0], None)))
+    if fn == "generate_cbc_mac" and ra[4] == mac.Algorithm.DES:
+        out.append(("default algorithm omitted", lambda: f(*ra[:4])))
+        out.append(("algorithm None", lambda: f(*ra[:4], None)))
+        if ra[3] is None:
+            out.append(("default length and algorithm omitted", lambda: f(*ra[:3])))
+    if fn == "generate_retail_mac" and ra[4] is None:
+        out.append(("default length omitted", lambda: f(*ra[:4])))
+    return out
+
+
 def impl_call(fn, args):
     f = FUNCS[fn] if isinstance(fn, str) else fn
     try:
